@@ -16,7 +16,10 @@ RULES = []
 class Rule:
     def __init__(self, rid, prop, floor, text, fn, configs=None, also=(), tiers=None):
         self.id, self.prop, self.floor, self.text, self.fn, self.configs = rid, prop, floor, text, fn, configs
-        self.also = tuple(also)  # other properties that also report this rule's obligations
+        # other properties that also report this rule's obligations; an entry ("C02", "sync") lists only the obligations about that flavour (C02 is a
+        # property of the shared arena: a defect of unsync::Arena alone does not violate it)
+        self.also = tuple(a if isinstance(a, str) else a[0] for a in also)
+        self.also_only = {a[0]: a[1] for a in also if not isinstance(a, str)}
         self.tiers = tiers       # None = every tier
 
 
@@ -184,8 +187,11 @@ def run_property(prop, tier="quick", seed=0, out=sys.stdout):
             if r.configs is not None and cfg not in r.configs:
                 continue
             n = 0
+            only = r.also_only.get(prop) if r.prop != prop else None
             try:
                 for ob in r.fn(ctx):
+                    if only is not None and not re.search(r"(?<![a-z])%s::" % only, ob.key):
+                        continue
                     ob.rule = r
                     ob.config = cfg
                     obs.append(ob)
@@ -198,6 +204,8 @@ def run_property(prop, tier="quick", seed=0, out=sys.stdout):
                 continue
             per_rule.setdefault(r.id, {})[cfg] = n
             floor = r.floor(cfg) if callable(r.floor) else r.floor
+            if only is not None:
+                floor = 1
             if n < floor:
                 broken.append("%s [%s]: only %d instances analysed, floor is %d (rule no longer matches the code it is about)" % (r.id, cfg, n, floor))
     findings, fixed = load_known()
